@@ -7,6 +7,9 @@ For every function that appears in the obligations of the quick run, apply gener
   FLIP  True <-> False constants
   DEL   replace a call statement / an assignment of a call result by `pass`
   ARG   drop one keyword argument of a call
+  DELA  delete an attribute / item / augmented assignment      RETN  return None instead of the value      DELR  delete a raise
+  AOR   + <-> -      INC  small integer constant + 1      SWAP  swap the first two positional arguments of a call
+  DROP  keep one operand of a two-operand and / or      BRK  break <-> continue
 one at a time (in memory; the function is re-emitted with ast.unparse, so formatting changes as well -
 the rules are insensitive to layout), re-parse the tree and re-run the property's rules.  A mutant is
 *killed* when a rule reports a violation that the unmodified tree does not have, *no-verdict* when the
@@ -46,6 +49,26 @@ def _sites(fn_node):
             for k in range(len(n.keywords)):
                 if n.keywords[k].arg is not None:
                     out.append(('ARG%d' % k, i, 'drop %s= in `%s`' % (n.keywords[k].arg, unparse(n)[:50])))
+        # second set of operators (statement / value level)
+        if isinstance(n, (ast.Assign, ast.AugAssign)) and not isinstance(getattr(n, 'value', None), ast.Call):
+            tg = n.targets[0] if isinstance(n, ast.Assign) else n.target
+            if isinstance(tg, (ast.Attribute, ast.Subscript)) or isinstance(n, ast.AugAssign):
+                out.append(('DELA', i, 'delete `%s`' % unparse(n)[:60]))
+        if isinstance(n, ast.Return) and n.value is not None and not (isinstance(n.value, ast.Constant) and n.value.value is None):
+            out.append(('RETN', i, 'return None instead of `%s`' % unparse(n.value)[:50]))
+        if isinstance(n, ast.Raise) and n.exc is not None:
+            out.append(('DELR', i, 'delete `%s`' % unparse(n)[:60]))
+        if isinstance(n, ast.BinOp) and isinstance(n.op, (ast.Add, ast.Sub)) and not isinstance(n.left, ast.Constant):
+            out.append(('AOR', i, 'swap +/- in `%s`' % unparse(n)[:60]))
+        if isinstance(n, ast.Constant) and isinstance(n.value, int) and not isinstance(n.value, bool) and n.value in (0, 1, 2):
+            out.append(('INC', i, 'constant %d -> %d' % (n.value, n.value + 1)))
+        if isinstance(n, ast.Call) and len(n.args) >= 2 and not any(isinstance(a, ast.Starred) for a in n.args[:2]) and unparse(n.args[0]) != unparse(n.args[1]):
+            out.append(('SWAP', i, 'swap the first two arguments of `%s`' % unparse(n)[:60]))
+        if isinstance(n, ast.BoolOp) and len(n.values) == 2:
+            out.append(('DROP0', i, 'keep only the second operand of `%s`' % unparse(n)[:60]))
+            out.append(('DROP1', i, 'keep only the first operand of `%s`' % unparse(n)[:60]))
+        if isinstance(n, (ast.Break, ast.Continue)):
+            out.append(('BRK', i, 'break <-> continue'))
     return out
 
 
@@ -66,9 +89,34 @@ def _apply(fn_node, op, idx):
             n.value = ast.Constant(value=None)
         elif op.startswith('ARG'):
             del n.keywords[int(op[3:])]
+        elif op in ('DELA', 'DELR', 'BRK', 'DROP0', 'DROP1'):
+            _replace_node(new, n, {'DELA': lambda: ast.Pass(), 'DELR': lambda: ast.Pass(),
+                                   'BRK': lambda: (ast.Continue() if isinstance(n, ast.Break) else ast.Break()),
+                                   'DROP0': lambda: n.values[1], 'DROP1': lambda: n.values[0]}[op]())
+        elif op == 'RETN':
+            n.value = ast.Constant(value=None)
+        elif op == 'AOR':
+            n.op = ast.Sub() if isinstance(n.op, ast.Add) else ast.Add()
+        elif op == 'INC':
+            n.value = n.value + 1
+        elif op == 'SWAP':
+            n.args[0], n.args[1] = n.args[1], n.args[0]
         break
     ast.fix_missing_locations(new)
     return new
+
+
+def _replace_node(root, old, new):
+    for parent in ast.walk(root):
+        for field, value in ast.iter_fields(parent):
+            if value is old:
+                setattr(parent, field, new)
+                return
+            if isinstance(value, list):
+                for k, x in enumerate(value):
+                    if x is old:
+                        value[k] = new
+                        return
 
 
 def _splice(module, fn_node, new_fn):
